@@ -22,6 +22,7 @@ pub fn check(tier: Tier) -> Check {
     parts.push(Part::new("C10/fill", json!({"r": 0}), 0, 120));
     parts.push(Part::new("C10/fill", json!({"r": 300}), 0, 120));
     Check {
+        also_rel: false,
         property: "C10",
         level: "model_checking",
         rule: "R in {1,2,3}: all histories of QoS 0/1/2 publishes, acknowledgements (success and failing, any outstanding publish) and pings up to the stated depth; R in {65535, absent, 300}: deterministic fill - refuse - drain - refill runs through the real client; accept/refuse decisions and the wire must equal the model's; non-trivial = a publish was refused for quota or a slot was freed by a failing acknowledgement".into(),
